@@ -43,6 +43,9 @@ ASSUMPTIONS = [
     'consumed before the exception (Deque(iterable, directory) appends the items of its iterable to the deque stored in the directory)',
     'contended histories contain no copy/pickle events (they build a handle with the default 60 s SQLite timeout, which would wait inside SQLite '
     'for a lock that the same thread releases) and handle events are not contended (Cache.__init__ retries its settings statements by sleeping)',
+    'handle races: the client that creates a handle (reopen / copy / unpickle) does not write through it until the other client is done; the other '
+    'client\'s calls run as whole calls between two statements of the creation (a copy / unpickled handle has the default 60 s SQLite timeout, so it is '
+    'never made to wait for a lock held by a parked thread); the virtual clock is frozen (Cache.__init__ retries its settings statements by sleeping)',
     'concurrent clause: each Deque call is one atomic step (one write transaction of the underlying Cache, C05/C06); C11_exactly_once is stated over all interleavings of atomic append/popleft (appendleft/pop) calls with maxlen None; on every scheduled run the calls are linearised by their COMMITs and replayed through the model',
 ]
 
@@ -1585,7 +1588,11 @@ RULE = ('differential histories of 10-40 calls (valid and malformed streams; max
         'collections.deque keeps (and lets displace) every item consumed before the exception.  Contention (monitor only): valid-stream histories on '
         'Deque.fromcache(Cache(dir, timeout=0)); every call starts while a second connection holds the write lock, which is released just before the '
         'call\'s (k+1)-th BEGIN attempt (k = 1..3, sometimes taken again between two transactions of the call): every method must wait and return what '
-        'collections.deque returns, never Timeout.')
+        'collections.deque returns, never Timeout.  Handle races (monitor only): one client creates a handle on the directory (Deque(directory=...), '
+        'copy(), pickle round trip; the statements of Cache.__init__ are scheduled events) while another client appends / pops through its own handle, '
+        'its calls placed as one burst or two after every i-th statement of the creation (quick: every second i); afterwards, through the new handle, the '
+        'other client\'s handle and a fresh one: len(d) == number of items == what collections.deque(maxlen) holds, d[i] for i within bounds, '
+        'IndexError beyond, and further appends keep a bounded deque at its bound.')
 
 
 def bounded_concurrent(ctx, res, nrandom):
@@ -1656,6 +1663,218 @@ def bounded_concurrent(ctx, res, nrandom):
     res.extra['bounded_deque_concurrency'] = st
 
 
+# ---------------------------------------------------------------------------
+# (d) a handle created (reopen / copy / unpickle) WHILE another client appends and pops
+
+
+HANDLE_WAYS = ('reopen', 'copy', 'pickle')
+
+
+def _wval(v):
+    return ('F' + str(v)) * 6 if isinstance(v, str) else v
+
+
+def handle_race_run(case, mkdir, max_steps=20000):
+    """Client 0 creates a NEW handle on the deque's directory (Deque(directory=...), d.copy(), pickle.loads(pickle.dumps(d))): the
+    statements of Cache.__init__ are its scheduled events.  Client 1 appends / pops through its own handle.  schedule = client 0's
+    first i events, then whole calls of client 1, ...  Decided when both are done, through the new handle, the old handle and a
+    fresh one: len(d) == number of items, the items are what collections.deque(maxlen) holds after client 1's calls, d[i] works for
+    every i within bounds, and a further append keeps a bounded deque at its bound.  Returns dict(problems, nevents, ...)."""
+    import instr
+    directory = mkdir()
+    maxlen, way = case['maxlen'], case['way']
+    init = [unrepr(x) if isinstance(x, str) and x.startswith('!') else x for x in case['init']]
+    clock = instr.Clock(1000.0)
+    problems = []
+    out_info = {'problems': problems, 'overflow': False}
+    with instr.Installed(clock):
+        c0 = diskcache.Cache(directory, eviction_policy='none', disk_min_file_size=case.get('min_file_size', 32768))
+        d_init = Deque.fromcache(c0, maxlen=maxlen)
+        for v in init:
+            d_init.append(_wval(v))
+        c0.close()
+        ref = collections.deque([_wval(v) for v in init], maxlen)
+        allowed_len = [len(ref)]
+        for op, v in case['writer']:
+            if op in ('append', 'appendleft'):
+                getattr(ref, op)(_wval(v))
+            elif ref:
+                getattr(ref, op)()
+            allowed_len.append(len(ref))
+        handles = [None, None]
+        made = {}
+        seen_len = {}
+        wcalls = []          # client 1's event counter after each of its calls
+        wlock = threading.Lock()
+
+        def warm(i):
+            def w():
+                with wlock:
+                    handles[i] = Deque.fromcache(diskcache.Cache(directory, timeout=0, eviction_policy='none'), maxlen=maxlen)
+                    len(handles[i])
+            return w
+        s = sched.Scheduler(clock, max_steps=max_steps, sleep_advances=False)
+
+        def opener():
+            d = handles[0]
+            try:
+                if way == 'reopen':
+                    new = Deque(directory=directory, maxlen=maxlen)
+                elif way == 'copy':
+                    new = d.copy()
+                else:
+                    new = pickle.loads(pickle.dumps(d))
+                made['new'] = new
+                seen_len['new'] = len(new)
+                new.cache.close()
+            finally:
+                d.cache.close()
+            return 'opened'
+
+        def writer():
+            d = handles[1]
+            results = []
+            try:
+                for op, v in case['writer']:
+                    try:
+                        results.append(getattr(d, op)(_wval(v)) if op in ('append', 'appendleft') else getattr(d, op)())
+                    except IndexError:
+                        results.append('IndexError')
+                    wcalls.append(s.nevents[1])
+            finally:
+                d.cache.close()
+            return results
+        out = s.run([opener, writer], list(case['schedule']), warmups=[warm(0), warm(1)])
+        out_info.update({'overflow': bool(out['overflow']), 'steps': out['steps'], 'schedule_used': list(out['schedule_used']),
+                         'events': [sum(1 for c, _, _ in out['log'] if c == i) for i in (0, 1)], 'writer_call_events': list(wcalls),
+                         'log': [(c, w) for c, w, _ in out['log']]})
+        if out['overflow']:
+            shutil.rmtree(directory, ignore_errors=True)
+            return out_info
+        for cid, e in enumerate(out['errors']):
+            if e is not None:
+                problems.append(('deque_handle_race:error', 'client %d (%s) raised %r' % (cid, 'creating the handle' if cid == 0 else 'appending / popping', e)))
+        if not problems:
+            want = list(ref)
+            if seen_len.get('new') not in allowed_len:
+                problems.append(('deque_handle_race:len', 'len() of the handle just created by %s returned %r; the deque held %r items before, between and after '
+                                 'the other client\'s calls' % (way, seen_len.get('new'), allowed_len)))
+            fresh = Deque.fromcache(diskcache.Cache(directory, eviction_policy='none'), maxlen=maxlen)
+            views = [('the new handle (%s)' % way, made['new']), ('the handle of the appending client', handles[1]), ('a handle opened afterwards', fresh)]
+            try:
+                for label, d in views:
+                    items = list(d)
+                    n = len(d)
+                    if not same_typed_list(items, want):
+                        problems.append(('deque_handle_race:contents', '%s holds %r, collections.deque(maxlen=%r) after the same calls holds %r' % (label, items, maxlen, want)))
+                        break
+                    if n != len(items):
+                        problems.append(('deque_handle_race:len', 'len(%s) == %d but it holds %d items %r' % (label, n, len(items), items)))
+                        break
+                    for i in sorted(set([0, len(want) - 1, -1, -len(want)])) if want else []:
+                        try:
+                            got = d[i]
+                        except IndexError as e:
+                            problems.append(('deque_handle_race:index', '%s[%d] raised %r although it holds %d items' % (label, i, e, len(items))))
+                            break
+                        if not same_typed(got, want[i]):
+                            problems.append(('deque_handle_race:index', '%s[%d] == %r, expected %r' % (label, i, got, want[i])))
+                            break
+                    try:
+                        d[len(want)]
+                        problems.append(('deque_handle_race:index', '%s[%d] did not raise IndexError although it holds %d items' % (label, len(want), len(want))))
+                    except IndexError:
+                        pass
+                    if problems:
+                        break
+                if not problems:
+                    # further appends through the new handle: a bounded deque stays at its bound and discards nothing below it
+                    d = made['new']
+                    for j in range(2):
+                        x = 'after%d' % j
+                        d.append(x) if j % 2 == 0 else d.appendleft(x)
+                        ref.append(x) if j % 2 == 0 else ref.appendleft(x)
+                        items = list(d)
+                        if not same_typed_list(items, list(ref)) or len(d) != len(ref):
+                            problems.append(('deque_handle_race:bound' if maxlen is not None and len(items) != len(ref) else 'deque_handle_race:contents',
+                                             'after one more %s through the new handle it holds %r (len() %d); collections.deque(maxlen=%r) holds %r'
+                                             % ('append' if j % 2 == 0 else 'appendleft', items, len(d), maxlen, list(ref))))
+                            break
+            finally:
+                for _, d in views:
+                    try:
+                        d.cache.close()
+                    except Exception:  # noqa
+                        pass
+    shutil.rmtree(directory, ignore_errors=True)
+    return out_info
+
+
+def handle_races(ctx, res, thorough):
+    """Every placement of the other client's calls (as one burst, and split in two bursts) inside the creation of a handle."""
+    import concdrv
+    mkdir = lambda: concdrv.scratch(ctx, 'c11h')       # noqa: E731  (tmpfs when available: every run opens and closes five handles)
+    st = {'runs': 0, 'overflow': 0, 'by_way': {}}
+    seen = set()
+    rng = ctx.rng
+    variants = []
+    for wi, way in enumerate(HANDLE_WAYS):
+        for maxlen in (None, 4, 3):
+            variants.append((way, maxlen))
+    for vi, (way, maxlen) in enumerate(variants):
+        if not thorough and vi % 3 != (ctx.seed % 3) and maxlen == 3:
+            continue
+        filey = (vi % 2 == 1)
+        init = ['a', 'b', 'c'] if not filey else ['a', 1, 'c']
+        pool = [[('append', 'd')], [('append', 'd'), ('append', 'e')], [('popleft', None), ('append', 'd'), ('appendleft', 'z')],
+                [('pop', None), ('pop', None)], [('appendleft', 'z'), ('popleft', None), ('append', 'd'), ('append', 'e')]]
+        wr = pool[vi % len(pool)] if not thorough else None
+        for writer in ([wr] if wr else pool):
+            base = {'check': 'deque_handle_race', 'way': way, 'maxlen': maxlen, 'init': init, 'writer': [list(x) for x in writer],
+                    'min_file_size': 8 if filey else 32768}
+            solo = handle_race_run(dict(base, schedule=[0] * 5000), mkdir)
+            if solo['overflow'] or solo['problems']:
+                for sig, desc in solo['problems'][:1]:
+                    if sig not in seen:
+                        seen.add(sig)
+                        res.violations.append(fw.Violation(sig, 'a handle created while nobody else writes: ' + desc, dict(base, schedule=[0] * 5000)))
+                continue
+            n0 = solo['events'][0]
+            cuts = solo['writer_call_events']
+            step = 1 if thorough else 2
+            off = 0 if thorough else (vi + ctx.seed) % step
+            scheds = [[0] * i + [1] * 3000 + [0] * 5000 for i in range(off, n0 + 1, step)]
+            if len(cuts) > 1:
+                a = cuts[(len(cuts) - 1) // 2]
+                for i in range(off, n0 + 1, step * 3):
+                    for k in (3, 9):
+                        scheds.append([0] * i + [1] * a + [0] * k + [1] * 3000 + [0] * 5000)
+            for schedule in scheds:
+                case = dict(base, schedule=schedule)
+                r = handle_race_run(case, mkdir)
+                st['runs'] += 1
+                st['by_way'][way] = st['by_way'].get(way, 0) + 1
+                if r['overflow']:
+                    st['overflow'] += 1
+                    continue
+                res.count(['handle-race', way, maxlen, writer, ''.join(map(str, r['schedule_used']))], nontrivial=True)
+                for sig, desc in r['problems'][:2]:
+                    if sig in seen:
+                        continue
+                    seen.add(sig)
+                    case['schedule'] = r['schedule_used']
+                    res.violations.append(fw.Violation(sig, 'a Deque handle created by %s (maxlen %r) while another client runs %s (placed after %d of the %d '
+                                                       'statements of the creation): %s' % (way, maxlen, ' '.join(op for op, _ in writer),
+                                                                                            (schedule.index(1) if 1 in schedule else len(schedule)), n0, desc), case))
+                if len(seen) >= 3:
+                    break
+            if len(seen) >= 3:
+                break
+        if len(seen) >= 3:
+            break
+    res.extra['deque_handle_races'] = st
+
+
 def run(ctx):
     res = fw.Result()
     res.rule = RULE
@@ -1667,6 +1886,7 @@ def run(ctx):
     correspondence(ctx, res, histories, 7000 if ctx.quick else 100000)
     concurrent(ctx, res, 40 if ctx.quick else 400)
     bounded_concurrent(ctx, res, 120 if ctx.quick else 1500)
+    handle_races(ctx, res, not ctx.quick)
     return res
 
 
@@ -1678,6 +1898,7 @@ def search(ctx, broken):
     extra_histories(ctx, res, stats, 240, 120, first_id=300000)
     concurrent(ctx, res, 120)
     bounded_concurrent(ctx, res, 400)
+    handle_races(ctx, res, False)
     return res
 
 
@@ -1713,6 +1934,16 @@ def replay(payload):
         print('  expected (collections.deque): %s' % div['expected'])
         print('  observed (diskcache.Deque):   %s' % div['observed'])
         return False
+    if check == 'deque_handle_race':
+        r = handle_race_run(case, lambda: tempfile.mkdtemp(prefix='c11r-'))
+        if r['overflow']:
+            print('scheduler step bound exceeded; run discarded')
+            return True
+        print('Deque maxlen=%r init=%r; client 0 creates a handle by %s, client 1 runs %r' % (case['maxlen'], case['init'], case['way'], case['writer']))
+        print('  log:', ' '.join('%d:%s' % (c, w) for c, w in r['log']))
+        for sig, desc in r['problems']:
+            print('  %s: %s' % (sig, desc))
+        return not r['problems']
     if check == 'deque_conc':
         r = conc_run(case['scenario'], case['items'], case['attempts'], case['schedule_used'],
                      lambda: tempfile.mkdtemp(prefix='c11r-'))
